@@ -6,11 +6,11 @@
     theorem fillDly_ok (r p n l) (hr : WfRule r) (hp : WfInst p) (hn : n ≤ 64) (h : fillDly r p n = some l) : FillOk r p n l
     theorem fillDly_total (r p n) (hr : WfRule r) (hp : WfInst p) (hn : n ≤ 64) : (fillDly r p n).isSome
 
-  `fillDly_total` is proved as it stands.  `fillDly_ok` is FALSE as it stands: an all-day seed (H = ALL_DAY) with
-  BYMINUTE or BYSECOND but no BYHOUR gets instants with H = ALL_DAY and a non-zero minute / second, which are not
-  `WfInst`, e.g.
+  Both are proved as they stand.  History: before `make_enum` was made to ignore BYHOUR / BYMINUTE / BYSECOND next to a
+  DATE seed (RFC 5545, 3.3.10), `fillDly_ok` was false: an all-day seed (H = ALL_DAY) with BYMINUTE or BYSECOND but no
+  BYHOUR got instants with H = ALL_DAY and a non-zero minute / second, which are not `WfInst`, e.g.
     r = { freq := 4, S := [30] }, p = 2020-01-01 (all day):  fillDly r p 3 = 2020-01-01 H=255 M=0 S=30, 01-02 …, 01-03 …
-  It is proved under the extra hypothesis `TimeOk r p` (RrOkBase) as `fillDly_ok_partial`.
+  (now: the plain all-day instants, `fillDly_allDay_bysecond`).
   (`d += rr->inter` cannot wrap for an `int` INTERVAL; the hand-over to the weekly filler happens for INTERVAL=1.)
   `hn : n ≤ 64` is not needed.
 -/
@@ -29,34 +29,33 @@ abbrev mkDCtx (r : Rule) (p : Inst) (nti wdMask posd negd : Nat) : DlyCtx :=
 theorem dly_finish (r : Rule) (p : Inst) (nti n wdMask posd negd w : Nat) (hr : WfRule r) (hp : WfInst p)
     (hcap : nti ≤ n ∧ (0 ≤ r.count → (nti : Int) ≤ r.count)) :
     ∃ l, (dlyLoop (mkDCtx r p nti wdMask posd negd) (wlyDlyFuel p.y nti) p.y p.m p.d w (getNdom p.y p.m) []).map
-        List.reverse = some l ∧ (TimeOk r p → FillOk r p n l) := by
+        List.reverse = some l ∧ FillOk r p n l := by
   have hv : VD p.y p.m p.d := ⟨hp.month.1, hp.month.2, hp.day.1, hp.day.2⟩
   have hy := hp.year
   obtain ⟨l, hl, hacc⟩ := dlyLoop_spec (mkDCtx r p nti wdMask posd negd) hr hp (wlyDlyFuel p.y nti) p.y p.m p.d w []
     hv (by omega) (fun _ => ⟨Acc.nil _ _ _, Below.nil _ _ _⟩) (enough_start p.y p.m p.d nti hv)
   rw [hl]
-  exact ⟨l.reverse, rfl, fun ht => fillOk_of_acc (hacc (makeEnum_ok r p hr hp ht)) hcap.1 hcap.2⟩
+  exact ⟨l.reverse, rfl, fillOk_of_acc (hacc (makeEnum_ok r p hr hp)) hcap.1 hcap.2⟩
 
-/-- `fillDly` ends and its result is fine (when the seed's time of day goes with the rule's BYHOUR / BYMINUTE /
-BYSECOND parts) -/
+/-- `fillDly` ends and its result is fine -/
 theorem fillDly_spec (r : Rule) (p : Inst) (n : Nat) (hr : WfRule r) (hp : WfInst p) :
-    ∃ l, fillDly r p n = some l ∧ (TimeOk r p → FillOk r p n l) := by
+    ∃ l, fillDly r p n = some l ∧ FillOk r p n l := by
   unfold fillDly
   have hy := hp.year
   rw [if_neg (by rw [hr.scale]; omega)]
   simp only
   cases hcap : capNti r n with
-  | none => exact ⟨[], rfl, fun _ => fillOk_nil r p n⟩
+  | none => exact ⟨[], rfl, fillOk_nil r p n⟩
   | some nti =>
     have hcap' := capNti_spec hr hcap
     simp only
     by_cases c1 : p.m = 0 ∨ p.m > 12 ∨ p.d = 0 ∨ p.d > 31
-    · rw [if_pos c1]; exact ⟨[], rfl, fun _ => fillOk_nil r p n⟩
+    · rw [if_pos c1]; exact ⟨[], rfl, fillOk_nil r p n⟩
     · rw [if_neg c1]
       split
       · rename_i c2
         obtain ⟨l, hl, hok⟩ := fillWly_spec r p nti hr hp
-        exact ⟨l, hl, fun ht => fillOk_mono (hok ht) hcap'.1⟩
+        exact ⟨l, hl, fillOk_mono hok hcap'.1⟩
       · exact dly_finish r p nti n _ _ _ _ hr hp hcap'
 
 end Echse.Lemmas.RrOkBase
@@ -70,11 +69,18 @@ theorem fillDly_total (r : Rule) (p : Inst) (n : Nat) (hr : WfRule r) (hp : WfIn
   obtain ⟨l, hl, -⟩ := fillDly_spec r p n hr hp
   rw [hl]; rfl
 
-theorem fillDly_ok_partial (r : Rule) (p : Inst) (n : Nat) (l : List Inst) (hr : WfRule r) (hp : WfInst p)
-    (_hn : n ≤ 64) (ht : TimeOk r p) (h : fillDly r p n = some l) : FillOk r p n l := by
+theorem fillDly_ok (r : Rule) (p : Inst) (n : Nat) (l : List Inst) (hr : WfRule r) (hp : WfInst p)
+    (_hn : n ≤ 64) (h : fillDly r p n = some l) : FillOk r p n l := by
   obtain ⟨l', hl, hok⟩ := fillDly_spec r p n hr hp
   rw [hl] at h
   cases h
-  exact hok ht
+  exact hok
+
+/-- FREQ=DAILY;BYSECOND=30 on the all-day seed 2020-01-01: BYSECOND is ignored next to a DATE value, the plain all-day
+instants come out (before the repair of `make_enum`: hour ALL_DAY with second 30) -/
+theorem fillDly_allDay_bysecond :
+    fillDly { freq := 4, S := [30] } { y := 2020, m := 1, d := 1, H := 255, M := 0, S := 0, ms := 0 } 2 =
+    some [{ y := 2020, m := 1, d := 1, H := 255, M := 0, S := 0, ms := 0 },
+          { y := 2020, m := 1, d := 2, H := 255, M := 0, S := 0, ms := 0 }] := by decide +kernel
 
 end Echse.Lemmas.RrDlyOk
